@@ -16,6 +16,23 @@ mod proofs {
     h!(mid_reserve, 3);
     h!(wu_roundtrip, 10);
     h!(mid_pop_frame, 3);
+    h!(pop_frame_rc1, 3);
+    #[kani::proof] #[kani::unwind(2)]
+    #[kani::stub(h2::proto::streams::store::Store::find_mut, h2::proto::streams::store::stub_find_mut)]
+    #[kani::stub(h2::proto::streams::prioritize::Prioritize::clear_queue, h2::proto::streams::prioritize::kani_h::stub_clear_queue)]
+    #[kani::stub(h2::proto::streams::prioritize::Prioritize::reclaim_all_capacity, h2::proto::streams::prioritize::kani_h::stub_reclaim_all)]
+    fn pop_frame_sz_concrete() { h2::verif_harness::pop_frame_sz_concrete() }
+    #[kani::proof] #[kani::unwind(2)]
+    #[kani::stub(h2::proto::streams::store::Store::find_mut, h2::proto::streams::store::stub_find_mut)]
+    #[kani::stub(h2::proto::streams::prioritize::Prioritize::clear_queue, h2::proto::streams::prioritize::kani_h::stub_clear_queue)]
+    #[kani::stub(h2::proto::streams::prioritize::Prioritize::reclaim_all_capacity, h2::proto::streams::prioritize::kani_h::stub_reclaim_all)]
+    fn pop_frame_reset_frame() { h2::verif_harness::pop_frame_reset_frame() }
+
+    #[kani::proof] #[kani::unwind(2)]
+    #[kani::stub(h2::proto::streams::store::Store::find_mut, h2::proto::streams::store::stub_find_mut)]
+    #[kani::stub(h2::proto::streams::prioritize::Prioritize::clear_queue, h2::proto::streams::prioritize::kani_h::stub_clear_queue)]
+    #[kani::stub(h2::proto::streams::prioritize::Prioritize::reclaim_all_capacity, h2::proto::streams::prioritize::kani_h::stub_reclaim_all)]
+    fn pop_frame_one_iter() { h2::verif_harness::pop_frame_one_iter() }
     h!(two_stream_conn_update, 3);
     h!(settings_two_streams, 4);
     #[kani::proof] #[kani::unwind(4)]
